@@ -539,6 +539,11 @@ class Session:
         try:
             if kind in LOOP_STEPS or kind == "fuse":
                 loops = self.loops()
+                if step.get("of") is not None:
+                    # restrict the choice to loops of one type
+                    # ("" = cells, "colour", "colours", "dof")
+                    loops = [l for l in loops
+                             if getattr(l, "loop_type", None) == step["of"]]
                 if not loops:
                     status = "refused:notarget"
                 else:
